@@ -47,6 +47,7 @@ PROBES = ['delay_blocked_on_tick', 'behind_schedule_no_block',
 WALL_CAP = {'quick': 150, 'thorough': 1500}
 EPS = 1e-6
 AMBIG = 2e-6
+TOL = 0.002      # other threads' datagrams cost virtual time
 
 
 def runs_for(tier):
@@ -140,6 +141,9 @@ def gen(rng, tier, index):
         if rng.random() < 0.35 and 'at' not in st:
             st['work'] = round(rng.choice([tick * 0.4, tick * 1.3,
                                            tick * 3.7, 0.05, 1.2]), 4)
+            if tick >= 0.5 and budget_ticks > 300 and rng.random() < 0.12:
+                st['work'] = rng.choice([650.0, 1300.0])   # a long hold-up
+                budget_ticks -= int(st['work'] / tick)
             est += st['work']
         if kind == 'zero':
             cur_d = 0
@@ -153,13 +157,20 @@ def gen(rng, tier, index):
         steps.append(st)
         if budget_ticks < 0:
             break
+    has_at = any('at' in s for s in steps)
+    twice = (not has_at) and rng.random() < 0.25
+    bystander = None
+    if rng.random() < 0.25:
+        # another script alive at the same time, as a background job
+        bystander = {'d': rng.choice([tick * 1.5, 0.3, 1.0, 2 * tick]),
+                     'after': rng.choice([0.0, tick * 0.7, 0.45, 1.3])}
     pol = policy.draw_policy(rng, est_len=500, stalls=True)
     if any('at' in s for s in steps):
         # a wait held up past its whole matching minute would last a day
         pol['p_stall'] = min(pol['p_stall'], 0.02)
     return {'policy': pol,
             'population': pop, 'tick': tick, 'start': [hour, minute, second],
-            'steps': steps}
+            'steps': steps, 'twice': twice, 'bystander': bystander}
 
 
 def build_script(sc):
@@ -302,40 +313,57 @@ def execute(scenario, chooser):
         if not any(v['sig'] == 'C10/' + sig for v in viol):
             viol.append({'sig': 'C10/' + sig, 'msg': msg})
 
-    class RecClock(clock_mod.Clock):
-        def reset(self):
-            super().reset()
-            s = core.current()
-            # the origin the real clock took (observation of its state; a
-            # stall may separate the assignment from this line)
-            # the origin the real clock took, obtained through its own et()
-            # (a stall may separate the real assignment from this line, so
-            # the current time would not do)
-            elapsed = self.et()
-            rec.append(('reset', s.now - elapsed, len(s.log)))
+    clock_ids = {}
 
+    def _cid(clk):
+        # which Clock object (index in order of first use)
+        return clock_ids.setdefault(id(clk), (len(clock_ids), clk))[0]
+
+    def _who():
+        me = core.me()
+        return me.name if me is not None else '?'
+
+    def w_reset(orig):
+        def reset(self):
+            orig(self)
+            s = core.current()
+            # the origin the real clock took, obtained through its own et()
+            # (a stall may separate the real assignment from this line)
+            elapsed = self.et()     # first et(), then the time: nothing
+            origin = s.now - elapsed    # can pre-empt between these two
+            rec.append(('reset', origin, len(s.log), _cid(self), _who()))
+        return reset
+
+    def w_pause(orig):
         def pause_for(self, delay):
             s = core.current()
             a, la = s.now, len(s.log)
-            super().pause_for(delay)
-            rec.append(('pause', a, delay, s.now, la, len(s.log)))
+            orig(self, delay)
+            rec.append(('pause', a, delay, s.now, la, len(s.log), _cid(self), _who()))
+        return pause_for
 
+    def w_until(orig):
         def wait_until(self, pattern):
             s = core.current()
             a, la = s.now, len(s.log)
-            super().wait_until(pattern)
-            rec.append(('until', a, pattern, s.now, la, len(s.log)))
+            orig(self, pattern)
+            rec.append(('until', a, pattern, s.now, la, len(s.log), _cid(self), _who()))
+        return wait_until
 
+    def w_fire(orig):
         def fire(self):
-            rec.append(('tick', core.current().now))
-            super().fire()
+            rec.append(('tick', core.current().now, _cid(self), _who()))
+            orig(self)
+        return fire
+
+    clock_hooks = {'reset': w_reset, 'pause_for': w_pause,
+                   'wait_until': w_until, 'fire': w_fire}
 
     def main(sim):
         # send stalls are keyed by the command's kelvin tag: resolve them to
         # (device, occurrence) lazily through a net hook
         net, ls, ok = env.build_world(sim, sc['population'],
                                       settings={'sleep_time': tick})
-        injection.bind(RecClock).to(i_lib.Clock)
         st['net'] = net
         tagged = {r['tagk']: r for r in plan if 'tagk' in r}
         net.plan = [r for r in plan if 'tagk' not in r]
@@ -365,14 +393,33 @@ def execute(scenario, chooser):
             return
         agent = jc.add_job(job, 'main')
         th = world.thread_of_agent(sim, agent)
-        st['job_thread'] = th.name
+        st['job_threads'] = [th.name]
+        by = sc.get('bystander')
+        if by:
+            sim.sleep(by['after'])
+            d = by['d']
+            bjob = ScriptJob.from_string(
+                'time {} kelvin 3001 set "Lamp" kelvin 3002 set "Lamp"'
+                .format(d))
+            bagent = jc.spawn_job(bjob, 'bystander')
+            st['bystander_thread'] = world.thread_of_agent(sim, bagent).name
         sim.join(th)
+        if sc.get('twice'):
+            # the same job object once more, right away
+            st['mark2'] = sim.next_event()
+            agent2 = jc.add_job(job, 'main')
+            th2 = world.thread_of_agent(sim, agent2)
+            st['job_threads'].append(th2.name)
+            sim.join(th2)
+        if by:
+            sim.join(world.thread_of_agent(sim, bagent))
         st['ended'] = sim.now
 
     start = sc['start']
     start_dt = datetime.datetime(2024, 3, 5, start[0], start[1],
                                  int(start[2]), int((start[2] % 1) * 1e6))
-    with world.StdoutCapture():
+    with world.StdoutCapture(), world.Instrument(clock_mod.Clock,
+                                                 clock_hooks):
         sim, out = world.run_sim(main, chooser, gran=sc['policy']['gran'],
                                  step_cap=400000, start_dt=start_dt,
                                  stall=True, max_stall=max(2.0, 2 * tick),
@@ -408,7 +455,26 @@ def execute(scenario, chooser):
     res['faults']['stall'] = sim.stats.get('stall', 0)
     res['faults']['spin_advance'] = sim.stats.get('spin_advance', 0)
     res['faults']['thread_preemption'] = sim.switches
-    judge(sc, text, waits, rec, sim, st, start_dt, violation, probes, res)
+    marks = [st['mark'], st.get('mark2')]
+    for k, jt in enumerate(st['job_threads']):
+        st['job_thread'] = jt
+        mine = [r for r in rec if r[0] != 'tick' and r[-1] == jt]
+        my_clocks = {r[-2] for r in mine}
+        ticks = [r for r in rec if r[0] == 'tick' and r[-2] in my_clocks]
+        st['tick_threads'] = {r[-1] for r in ticks}
+        lo = marks[k]
+        hi = marks[k + 1] if k + 1 < len(marks) and marks[k + 1] else None
+        if not any(r[0] == 'reset' for r in mine):
+            violation('time-line-not-restarted',
+                      'run #{} of the script never (re)started its time '
+                      'line'.format(k + 1))
+            break
+        judge(sc, text, waits, mine + ticks, sim, st, start_dt, violation,
+              probes, res, (lo, hi))
+        if viol:
+            break
+    if st.get('bystander_thread') and not viol:
+        _judge_bystander(sc, rec, st, violation)
     return res
 
 
@@ -432,23 +498,51 @@ def _first_match(pattern_text, start_dt, t_from, horizon=180000.0):
     return None
 
 
-def judge(sc, text, waits, rec, sim, st, start_dt, violation, probes, res):
+def _judge_bystander(sc, rec, st, violation):
+    """The background script's own two delays are never early either."""
+    jt = st['bystander_thread']
+    resets = [r for r in rec if r[0] == 'reset' and r[-1] == jt]
+    if not resets:
+        violation('time-line-not-restarted',
+                  'the background script never started a time line')
+        return
+    t0 = resets[0][1]
+    d = sc['bystander']['d']
+    wire = world.wire_timed(st['net'], st['mark'], ('LightSetColor',))
+    for k, tag in enumerate((3001, 3002)):
+        got = [w for w in wire if dict(w[4])['color'][3] == tag]
+        if not got:
+            violation('command-missing',
+                      'background script: command {} never sent'.format(tag))
+            return
+        due = t0 + d * (k + 1)
+        if got[0][1] < due - EPS:
+            violation('early',
+                      'background script: command #{} reached its device at '
+                      't={:.6f}, before its due time {:.6f} (start {:.6f} + '
+                      '{} x {})'.format(k + 1, got[0][1], due, t0, k + 1, d))
+            return
+
+
+def judge(sc, text, waits, rec, sim, st, start_dt, violation, probes, res,
+          window=(None, None)):
     tick = sc['tick']
     job = st['job_thread']
     log = sim.log
     # stalls (and spin advances) that held up the script or the clock thread
     stalls = []
     for (_idx, t0, t1, names) in sim.stall_log:
-        if any(n == job or n.startswith('clock') for n in names):
+        if any(n == job or n in st.get('tick_threads', ()) or
+               n.startswith('clock') for n in names):
             stalls.append((t0, t1))
 
     def stalled(a, b):
         return any(t0 < b + EPS and t1 > a - EPS for t0, t1 in stalls)
 
     # ticks that found the script waiting: event.set with >= 1 waiter
-    wake_ticks = sorted(r[1] for r in log
-                        if r[3] == 'event.set' and r[5] >= 1
-                        and r[2].startswith('clock'))
+    wake_ticks = sorted({round(r[1], 7) for r in log
+                         if r[3] == 'event.set' and r[5] >= 1
+                         and r[2] in st.get('tick_threads', ())})
     all_ticks = sorted(r[1] for r in rec if r[0] == 'tick')
 
     def blocks_between(la, lb):
@@ -464,8 +558,13 @@ def judge(sc, text, waits, rec, sim, st, start_dt, violation, probes, res):
     acc = 0.0
     ci = calls.index(resets[0]) + 1
     wire = world.wire_timed(st['net'], st['mark'], ('LightSetColor',))
+    lo_ev, hi_ev = window
     by_tag = {}
     for w in wire:
+        if lo_ev is not None and w[0] <= lo_ev:
+            continue
+        if hi_ev is not None and w[0] >= hi_ev:
+            continue
         by_tag.setdefault(dict(w[4])['color'][3], []).append(w)
     prev_cmd_time = None
     prev_wait_kind = None
@@ -481,7 +580,7 @@ def judge(sc, text, waits, rec, sim, st, start_dt, violation, probes, res):
                               where, calls[ci][:3] if ci < len(calls)
                               else None, text))
                 return
-            _k, a, delay, r, la, lb = calls[ci]
+            _k, a, delay, r, la, lb = calls[ci][:6]
             ci += 1
             if abs(delay - w['val']) > 1e-9:
                 violation('delay-value',
@@ -504,7 +603,7 @@ def judge(sc, text, waits, rec, sim, st, start_dt, violation, probes, res):
                 pass        # arrival coincides with the due instant
             elif a >= due - EPS:
                 probes['behind_schedule_no_block'] = 1
-                if nb > 0 or (r > a + EPS and not stalled(a, r)):
+                if nb > 0 or (r > a + TOL and not stalled(a, r)):
                     violation('late/behind-schedule-blocked',
                               '{}: the script arrived at t={:.6f}, already '
                               'past the due time {:.6f}, yet the delay '
@@ -517,14 +616,18 @@ def judge(sc, text, waits, rec, sim, st, start_dt, violation, probes, res):
                 if any(abs(tk - due) < 1e-9 for tk in all_ticks):
                     probes['due_coincides_with_tick'] = 1
                 if not stalled(a, max(r, due + 2 * tick)):
-                    expect = [tk for tk in wake_ticks if tk >= due - AMBIG
+                    # a tick up to TOL before the due instant can end the
+                    # delay too: other threads' datagrams make (virtual) time
+                    # pass between the wake-up and the script's look at the
+                    # clock; one that coincides with the due instant may or
+                    # may not count (floating point)
+                    expect = [tk for tk in wake_ticks if tk >= due - TOL
                               and tk > a - EPS]
-                    ok_times = expect[:1]
-                    if expect and abs(expect[0] - due) <= AMBIG:
-                        # a tick that coincides with the due instant may or
-                        # may not count (floating point)
-                        ok_times = expect[:2]
-                    if not any(abs(r - x) <= EPS for x in ok_times):
+                    zone = [tk for tk in expect if tk <= due + AMBIG]
+                    ok_times = zone + [tk for tk in expect
+                                       if tk > due + AMBIG][:1]
+                    if r < due - EPS or \
+                            not any(-EPS <= r - x <= TOL for x in ok_times):
                         first_any = [tk for tk in all_ticks if tk >= due - EPS]
                         if expect and first_any and \
                                 expect[0] > first_any[0] + EPS:
@@ -552,7 +655,7 @@ def judge(sc, text, waits, rec, sim, st, start_dt, violation, probes, res):
             probes['zero_delay'] = 1
             if ci < len(calls) and calls[ci][0] == 'pause' and \
                     calls[ci][2] == 0:
-                _k, a, _d, r, la, lb = calls[ci]
+                _k, a, _d, r, la, lb = calls[ci][:6]
                 ci += 1
                 if blocks_between(la, lb) > 0 or (
                         r > a + EPS and not stalled(a, r)):
@@ -584,7 +687,7 @@ def judge(sc, text, waits, rec, sim, st, start_dt, violation, probes, res):
                                   text))
                 return
             ci = j
-            _k, a, _pat, r, la, lb = until
+            _k, a, _pat, r, la, lb = until[:6]
             m = _first_match(w['val'], start_dt, a)
             if m is None:
                 res['harness_error'] = 'pattern never matches: {}'.format(
@@ -610,11 +713,11 @@ def judge(sc, text, waits, rec, sim, st, start_dt, violation, probes, res):
                                   '{:.6f} but the time line restarted at '
                                   '{:.6f}'.format(where, a, t0_new))
                 else:
-                    expect = [tk for tk in wake_ticks if tk >= m - AMBIG]
-                    ok_times = expect[:1]
-                    if expect and abs(expect[0] - m) <= AMBIG:
-                        ok_times = expect[:2]
-                    if not any(abs(t0_new - x) <= EPS for x in ok_times) or \
+                    expect = [tk for tk in wake_ticks if tk >= m - TOL]
+                    zone = [tk for tk in expect if tk <= m + AMBIG]
+                    ok_times = zone + [tk for tk in expect
+                                       if tk > m + AMBIG][:1]
+                    if not any(-EPS <= t0_new - x <= TOL for x in ok_times) or \
                             t0_new > m + 2 * tick + EPS:
                         violation('time-of-day/late',
                                   '{}: awaited time arrived at {:.6f}; the '
